@@ -639,6 +639,29 @@ pub mod mpsc {
         pub fn recv(&mut self) -> RecvFut<'_, T> {
             RecvFut { rx: self }
         }
+        /// up to `limit` messages in one go (waits for the first one)
+        pub async fn recv_many(&mut self, buf: &mut Vec<T>, limit: usize) -> usize {
+            if limit == 0 {
+                return 0;
+            }
+            match self.recv().await {
+                None => 0,
+                Some(v) => {
+                    buf.push(v);
+                    let mut n = 1;
+                    while n < limit {
+                        match self.try_recv() {
+                            Ok(v) => {
+                                buf.push(v);
+                                n += 1;
+                            }
+                            Err(_) => break,
+                        }
+                    }
+                    n
+                }
+            }
+        }
         pub fn poll_recv(&mut self, _cx: &mut Context<'_>) -> Poll<Option<T>> {
             self.poll_recv_inner()
         }
